@@ -27,6 +27,8 @@ def bounds(tier):
 def jobs(tier, seed):
     n = 24 if tier == "quick" else 160
     js = [{"sub": "cyclic", "chunk": i, "of": n} for i in range(n)]
+    if tier != "quick":
+        js += [{"sub": "graph5", "chunk": i, "of": 64} for i in range(64)]
     for hs in (1, 2 + seed % 1000):
         js += [{"sub": "cyclic", "chunk": i, "of": n, "hashseed": hs, "primary": False} for i in range(0, n, 6)]
     return js
@@ -58,7 +60,7 @@ def bind_aux(c, r, aux):
     return m
 
 
-def check(acc, desc):
+def check(acc, desc, values=True):
     import circuitgraph as cg
 
     case = {"kind": "cyclic", "desc": desc}
@@ -88,6 +90,10 @@ def check(acc, desc):
     if binding is None or len(set(binding.values())) != len(aux):
         acc.violation("cyclic", "aux-inputs-not-one-per-cut-node", case, f"aux inputs {aux}")
         return None
+    if not values:
+        acc.outcome(f"cut:{len(aux)}")
+        acc.observe(aux)
+        return True
     nodes = sorted(c.graph.nodes)
     want, _ = refsim.consistent(c.graph, nodes)
     k = len(nodes)
@@ -113,9 +119,50 @@ def check(acc, desc):
     return bool(want)
 
 
+def graph_desc(n, edges, order):
+    indeg = [0] * n
+    for _u, v in edges:
+        indeg[v] += 1
+    nodes = []
+    for i in order:
+        t = "input" if indeg[i] == 0 else "buf" if indeg[i] == 1 else ("and" if i % 2 else "xor")
+        nodes.append([f"n{i}", t, [f"n{u}" for u, v in edges if v == i], False])
+    # output: the highest-numbered non-input node
+    for x in sorted(nodes, key=lambda r: r[0], reverse=True):
+        if x[1] != "input":
+            x[3] = True
+            break
+    return {"name": "top", "nodes": nodes}
+
+
+def run_graph5(job, acc):
+    """All loop-free digraphs on 5 nodes that contain a cycle (the feedback heuristic depends on the graph
+    shape and the node insertion order only), in two insertion orders; thorough: all edge counts."""
+    cap = 9 if job["tier"] == "quick" else 20
+    for _idx, edges in space.chunk(space.digraphs(5), job["chunk"], job["of"]):
+        if len(edges) > cap or len(edges) < 2:
+            continue
+        succ = {i: set() for i in range(5)}
+        for u, v in edges:
+            succ[u].add(v)
+        if not refgraph.is_cyclic(succ):
+            continue
+        for order in (list(range(5)), list(range(4, -1, -1))):
+            desc = graph_desc(5, edges, order)
+            acc.states += 1
+            if check(acc, desc, values=job["tier"] != "quick"):
+                acc.nontrivial += 1
+        if acc.out_of_time():
+            break
+    acc.sample({"desc": desc if acc.states else None})
+
+
 def run(job):
     common.setup_paths()
     acc = Acc(job)
+    if job["sub"] == "graph5":
+        run_graph5(job, acc)
+        return acc.result()
     for _idx, (I, gates) in space.chunk(corpus(job["tier"]), job["chunk"], job["of"]):
         G = len(gates)
         base = space.to_desc(I, gates, outputs=[])
